@@ -90,7 +90,9 @@ func DecodeBIP276(text string) (*BIP276, error) {
 		return nil, err
 	}
 	s.Data = data
-	if _, checkSum := createBIP276(s); res[5] != checkSum {
+	// the checksum covers the text that precedes it, exactly as it was received.
+	payload := text[:len(text)-len(res[5])]
+	if checkSum := hex.EncodeToString(crypto.Sha256d([]byte(payload))[:4]); res[5] != checkSum {
 		return nil, ErrEncodingInvalidChecksum
 	}
 
